@@ -51,6 +51,7 @@ let runners : (string * (z list -> z list)) list = [
   ("net", run_net);
   ("replay", run_replay);
   ("ble", run_ble);
+  ("mixed", run_mixed);
 ]
 
 (* ---------- the world server: one mutable world shared by the SPI shims of a run ---------- *)
